@@ -1,7 +1,9 @@
 from __future__ import annotations
 
 import functools
+import itertools
 import json
+import os
 import shutil
 import tempfile
 import warnings
@@ -235,10 +237,31 @@ def _construct_internal_shapes(
     return internal_shapes
 
 
+_trash_counter = itertools.count()
+
+
 def _cleanup_run_folder(run_folder: str | Path) -> None:
-    """Remove the run folder and its contents."""
+    """Remove the run folder and its contents.
+
+    The folder is first renamed (atomically) to a unique sibling name and only then
+    deleted, such that ``run_folder`` is either intact or gone, also if the process is
+    killed half-way: a partially deleted run folder must never be seen by a later
+    ``cleanup=False`` run.
+    """
     run_folder = Path(run_folder)
-    shutil.rmtree(run_folder, ignore_errors=True)
+    target = run_folder
+    if run_folder.name and run_folder.is_dir() and not run_folder.is_symlink():
+        while True:
+            n = next(_trash_counter)
+            trash = run_folder.with_name(f".{run_folder.name}.{os.getpid()}.{n}.trash")
+            if not os.path.lexists(trash):
+                break
+        try:
+            run_folder.rename(trash)
+            target = trash
+        except OSError:  # e.g., the folder is a mount point or the parent is read-only
+            target = run_folder
+    shutil.rmtree(target, ignore_errors=True)
 
 
 def _compare_to_previous_run_info(
